@@ -41,6 +41,8 @@ RULE = (
     ' Static part also replaces public files by links to a secret between re'
     'quests and repeats the earlier requests; endpoints part also loads the'
     ' client list from real PEM files (valid / expired / mixed). '
+    ' Aimed requests also go through linked directories inside a root (dl_o'
+    'ut/<file>). '
 )
 ASSUMPTIONS = [
     'the request URI reaches _static undecoded (twisted passes request.uri '
